@@ -6,13 +6,15 @@ import ast
 import z3
 
 from . import decl, heapops, ops, source, spec
-from .core import (BOOL, FN, INT, NONE, NONEV, NUM, NUMTYPE, OTHER, STR, TYPEOBJ, ExcVal, FuncVal, StaleContract, State,
+from .core import (esort, epack, eunpack, BOOL, FN, INT, NONE, NONEV, NUM, NUMTYPE, OTHER, STR, TYPEOBJ, ExcVal, FuncVal, StaleContract, State,
                    TBool, TDict, TInt, TList, TMap, TNone, TNum, TOpaque, TOpt, TRef, TRefLike, TSeq, TSet, TSetV,
                    TStr, TTuple, TUnion, Unsupported, Val, boolv, coerce, compatible, fresh_name, is_numeric, num,
                    parse_type, strv, to_real, val_eq, val_ite)
 from .exec import Outcome, PyObj, SuperVal, ViewVal, _short, exc_subclass
 
 NumOfStr = z3.Function("NumOfStr", z3.StringSort(), z3.IntSort(), z3.RealSort())
+HashNum = z3.Function("HashNum", z3.RealSort(), z3.IntSort())
+HashCls = z3.Function("HashCls", z3.IntSort(), z3.IntSort())
 
 
 def ev_args(ex, node, st):
@@ -186,7 +188,8 @@ def pyobj_call(ex, fv, args, kwargs, st, node):
     import operator
 
     table = {operator.iadd: ast.Add(), operator.isub: ast.Sub(), operator.add: ast.Add(), operator.sub: ast.Sub(),
-             operator.mul: ast.Mult(), operator.truediv: ast.Div()}
+             operator.mul: ast.Mult(), operator.truediv: ast.Div(), operator.pow: ast.Pow(),
+             operator.floordiv: ast.FloorDiv(), operator.mod: ast.Mod()}
     if fv.obj in table:
         yield from ex.binop(table[fv.obj], args[0], args[1], st, node)
         return
@@ -331,7 +334,7 @@ def element_of(dom, st):
     if kind == "seq":
         _, seq, et = dom
         i = z3.Int(fresh_name("i"))
-        return et.make([seq[i]]), z3.And(i >= 0, i < z3.Length(seq)), [i]
+        return eunpack(seq[i], et), z3.And(i >= 0, i < z3.Length(seq)), [i]
     raise Unsupported(f"element of {kind}")
 
 
@@ -463,7 +466,7 @@ def ev_comprehension(ex, node, st):
             _, seq, et = dom
             i = z3.Int(fresh_name("i"))
             env = dict(st1.env)
-            bind_target(g.target, et.make([seq[i]]), env)
+            bind_target(g.target, eunpack(seq[i], et), env)
             sc = ex.scope(st1, env)
             body = spec.sv(node.elt, sc)
             if not body.t.simple:
@@ -537,6 +540,23 @@ def builtin_call(ex, name, args, kwargs, st, node):
             if key is None:
                 raise Unsupported(f"hash of {x.t}")
             yield from call_contract(ex, key, [x], {}, st, node)
+            return
+        if isinstance(x, Val) and is_numeric(x):
+            yield st, Val(INT, HashNum(to_real(x)))  # A3: equal numbers of any numeric type hash equal
+            return
+        if isinstance(x, FuncVal) and x.kind in ("dynclass", "class"):
+            cid = heapops.class_of(st.heap, x.recv.v) if x.kind == "dynclass" else z3.IntVal(decl.CLASSES[x.name].id)
+            yield st, Val(INT, HashCls(cid))
+            return
+        if isinstance(x, Val) and isinstance(x.t, TTuple):
+            def rec(i, st, acc):
+                if i == len(x.v):
+                    f = z3.Function(f"HashTup{len(acc)}", *([z3.IntSort()] * len(acc)), z3.IntSort())
+                    yield st, Val(INT, f(*acc))
+                    return
+                for st1, h in builtin_call(ex, "hash", [x.v[i]], {}, st, node):
+                    yield from rec(i + 1, st1, acc + [h.v])
+            yield from rec(0, st, [])
             return
         raise Unsupported(f"hash of {getattr(x, 't', x)}")
     if name in ("exp", "log") and len(args) == 1 and is_numeric(args[0]):
@@ -727,7 +747,7 @@ def builtin_collect(ex, name, args, kwargs, st, node):
 
 def listing_of_set(st, sv_):
     """fresh sequence enumerating exactly the elements of set value sv_ without repetition"""
-    es = sv_.t.e.sort()
+    es = esort(sv_.t.e)
     seq = z3.Const(fresh_name("listing"), z3.SeqSort(es))
     i, j = z3.Int(fresh_name("i")), z3.Int(fresh_name("j"))
     e = z3.Const(fresh_name("e"), es)
@@ -872,10 +892,10 @@ def set_method(ex, s, name, args, kwargs, st, node):
     t = s.t
     arr = heapops.set_arr(st.heap, s)
     if name == "add":
-        heapops.set_write(st.heap, s, z3.Store(arr, coerce(args[0], t.e).v, z3.BoolVal(True)))
+        heapops.set_write(st.heap, s, z3.Store(arr, epack(coerce(args[0], t.e)), z3.BoolVal(True)))
         yield st, NONEV
     elif name == "discard":
-        heapops.set_write(st.heap, s, z3.Store(arr, coerce(args[0], t.e).v, z3.BoolVal(False)))
+        heapops.set_write(st.heap, s, z3.Store(arr, epack(coerce(args[0], t.e)), z3.BoolVal(False)))
         yield st, NONEV
     elif name == "remove":
         e = coerce(args[0], t.e)
@@ -906,7 +926,7 @@ def set_method(ex, s, name, args, kwargs, st, node):
             heapops.set_write(st.heap, out, cur)
             yield st, out
     elif name == "clear":
-        heapops.set_write(st.heap, s, z3.K(t.e.sort(), z3.BoolVal(False)))
+        heapops.set_write(st.heap, s, z3.K(esort(t.e), z3.BoolVal(False)))
         yield st, NONEV
     else:
         raise Unsupported(f"set.{name}")
@@ -926,10 +946,10 @@ def as_set_array(ex, a, st, et):
             return heapops.dict_dom(st.heap, a)
         if isinstance(a.t, (TList, TSeq)):
             seq = heapops.list_seq(st.heap, a) if isinstance(a.t, TList) else a.v
-            e = z3.Const(fresh_name("e"), et.sort())
+            e = z3.Const(fresh_name("e"), esort(et))
             return z3.Lambda([e], z3.Contains(seq, z3.Unit(e)))
         if isinstance(a.t, TTuple):
-            arr = z3.K(et.sort(), z3.BoolVal(False))
+            arr = z3.K(esort(et), z3.BoolVal(False))
             for it in a.v:
                 arr = z3.Store(arr, coerce(it, et).v, z3.BoolVal(True))
             return arr
@@ -940,7 +960,7 @@ def list_method(ex, l, name, args, kwargs, st, node):
     t = l.t
     seq = heapops.list_seq(st.heap, l)
     if name == "append":
-        heapops.list_write(st.heap, l, z3.Concat(seq, z3.Unit(coerce(args[0], t.e).v)))
+        heapops.list_write(st.heap, l, z3.Concat(seq, z3.Unit(epack(coerce(args[0], t.e)))))
         yield st, NONEV
     elif name == "extend" and isinstance(args[0].t, (TList, TSeq)):
         o = args[0]
@@ -957,9 +977,9 @@ def list_method(ex, l, name, args, kwargs, st, node):
         for st1 in ex.guard_exc(st, n > 0, "IndexError", node):
             s1 = heapops.list_seq(st1.heap, l)
             heapops.list_write(st1.heap, l, z3.SubSeq(s1, 0, z3.Length(s1) - 1))
-            yield st1, t.e.make([s1[z3.Length(s1) - 1]])
+            yield st1, eunpack(s1[z3.Length(s1) - 1], t.e)
     elif name == "insert" and z3.is_int_value(z3.simplify(args[0].v)) and z3.simplify(args[0].v).as_long() == 0:
-        heapops.list_write(st.heap, l, z3.Concat(z3.Unit(coerce(args[1], t.e).v), seq))
+        heapops.list_write(st.heap, l, z3.Concat(z3.Unit(epack(coerce(args[1], t.e))), seq))
         yield st, NONEV
     else:
         raise Unsupported(f"list.{name}")
@@ -1032,7 +1052,7 @@ def bind_args(ex, c, fnode, args, kwargs, st):
         if a.vararg is None:
             raise Unsupported(f"too many positional arguments for {c.key}")
         et = c.params[a.vararg.arg].e
-        seq = z3.Empty(z3.SeqSort(et.sort()))
+        seq = z3.Empty(z3.SeqSort(esort(et)))
         for x in extra:
             seq = z3.Concat(seq, z3.Unit(coerce(x, et).v))
         bound[a.vararg.arg] = Val(TSeq(et), seq)
